@@ -107,6 +107,13 @@ def check_table_history(ctx, prog, stats):
         caller = rng.choice([None, None] + order)
         ops.append([0, -1 if caller is None else caller, R.call_key(call)])
         got.append(t.get(caller, call["pos"], call["kw"]))
+    # directed tail: for a few calls the plain access (which may fail: no method, ambiguity) followed by the continuation
+    # access from each of a few callers, twice -- a failed combination must answer the second time as it did the first
+    for call in rng.sample(prog["calls"], min(3, len(prog["calls"]))):
+        for caller in [None] + rng.sample(order, min(3, len(order))):
+            for _rep in range(1 if caller is None else 2):
+                ops.append([0, -1 if caller is None else caller, R.call_key(call)])
+                got.append(t.get(caller, call["pos"], call["kw"]))
     res = model.run_cases([[14, w.encode(), mms, ops]])[0]
     for i, (g, r) in enumerate(zip(got, res)):
         stats["evaluations"] += 1
@@ -115,7 +122,7 @@ def check_table_history(ctx, prog, stats):
         if g != m:
             ctx.violation(f"table access #{i}: implementation {g} != state machine {m}",
                           {"spec": prog["spec"], "defs": defs, "ops": ops[: i + 1]}, kind="correspondence")
-            return
+            break               # the tie is broken: the property is still asked of the implementation below
     # property oracle at table level: every access equals the same access on a fresh table
     for i, op in enumerate(ops):
         ft = tablelevel.Table(world_from(prog["spec"]))
